@@ -121,6 +121,11 @@ Definition template_recorded (reg : registry) (t : template) : bool :=
   | _, _ => false
   end.
 
+(* [reg_ok] assumes NOTHING about file names: the source text is recorded per TEMPLATE name
+   (sourceByTemplateName), so two inputs may carry the same file name -- Bundle.AddTemplateString's
+   name is optional and the empty name twice is usual -- without one input's text standing in for the
+   other's.  A registry that kept the text per file name would need distinct file names in addition;
+   the correspondence renders bundles whose inputs share a name to notice such a change. *)
 Definition reg_ok (reg : registry) : bool :=
   names_unique (map t_name (r_templates reg))
   && forallb (template_recorded reg) (r_templates reg)
